@@ -18,6 +18,8 @@ pub struct Emit {
     pub nshards: u64,
     pub scale: f64,
     pub n: u64,
+    pub triaged: u64,
+    pub triage_diffs: u64,
 }
 
 impl Emit {
@@ -31,6 +33,8 @@ impl Emit {
             nshards,
             scale,
             n: 0,
+            triaged: 0,
+            triage_diffs: 0,
         }
     }
     pub fn budget(&self, quick: u64, thorough: u64) -> u64 {
@@ -73,6 +77,7 @@ impl Emit {
                 }
             }
         }
+        let _ = writeln!(self.out, "G {} {}", self.triaged, self.triage_diffs);
         let _ = writeln!(self.out, "END {}", self.n);
         let _ = self.out.flush();
     }
